@@ -47,7 +47,7 @@ class Result:
             "property": self.prop, "tier": self.tier, "seed": self.seed,
             "evaluations": self.evaluations, "distinct_nontrivial": len(self.distinct),
             "clauses": self.clauses, "bounds": self.bounds, "notes": self.notes,
-            "failures": self.failures[:50], "n_failures": len(self.failures),
+            "failures": self.failures[:400], "n_failures": len(self.failures),
             "known": [{"id": f["id"], "what": f["what"], "example": e["case"]} for f, e in self.known[:50]],
             "known_ids": sorted({f["id"] for f, _ in self.known}),
             "samples": self.samples, "wall_s": round(time.time() - self.t0, 2),
